@@ -9,4 +9,20 @@ ObsTables == UNION {IF "table" \in DOMAIN Obs[i] THEN {Obs[i].table} \cup SeqSet
 ObsDeps == [x \in ObsTables |-> UNION {SeqSet(Obs[i].deps) : i \in {i \in DOMAIN Obs : "table" \in DOMAIN Obs[i] /\ Obs[i].table = x}}]
 ObsPrograms == {Obs[i].touch : i \in {i \in DOMAIN Obs : "prog" \in DOMAIN Obs[i]}}
 ThreeThreads == {"t1", "t2", "t3"}
+
+(***************************************************************************)
+(* Schedules for the real code (hook H6 holds a thread at the begin or the *)
+(* end of an initialiser): every reachable state in which some initialiser *)
+(* is running is printed; the harness drives fresh processes into that     *)
+(* state - one thread per stack, held at its innermost initialiser; the    *)
+(* threads about to force a table as arrivals - and releases everything at *)
+(* the same instant.  The model says every such state leads to termination *)
+(* with the tables intact, whatever the scheduler does next.               *)
+(***************************************************************************)
+Running == {x \in Tables : st[x] = "running"}
+HoldView == [done  |-> {x \in Tables : st[x] = "done"},
+             stks  |-> {[touch |-> stk[t][1].tab, hold |-> Top(t).tab,
+                         fresh |-> (Top(t).rem = Deps[Top(t).tab]), spent |-> (Top(t).rem = {})] : t \in {u \in Threads : stk[u] # <<>>}},
+             next  |-> {<<t, Head(todo[t])>> : t \in {u \in Threads : stk[u] = <<>> /\ todo[u] # <<>>}}]
+EmitHold == (Running # {}) => PrintT(<<"HOLD", ToJson(HoldView)>>)
 =============================================================================
